@@ -928,3 +928,52 @@ def run_C12(ctx):
         "(script, observed event order)",
         ASSUME_COMMON + ["a dispatch that happens before the reply of the disabling message is sent counts as service of the kick (protocol-level activity)"],
         viol)
+
+
+# ---------------------------------------------------------------------------------------------
+# C16: shutdown / teardown
+def run_C16(ctx):
+    import glob
+    rnd = random.Random(ctx.seed)
+    cases = []
+    for cfgp in sorted(glob.glob(os.path.join(ROOT, "spec", "mc", "MC_Daemon_*.cfg"))):
+        name = os.path.basename(cfgp)[:-4]
+        n = int(name.split("_")[2])
+        if n == 3 and ctx.tier == "quick":
+            continue
+        sch = ctx.tlc_mc("MC_Daemon", name, workers=4, timeout=1800)
+        if len(sch) > (400 if ctx.tier == "quick" else 6000):
+            sch = rnd.sample(sch, 400 if ctx.tier == "quick" else 6000)
+        for c in sch:
+            cases.append(dict(shutdown=True, callers=c["callers"], peer=c["peer"], peer_closes=c["peer_closes"], sched=c["sched"],
+                              predicted=dict(err=c["err"], wait=c["wait"])))
+    # peer close at every byte offset of a bodied and a body-less request, through serve()
+    for bodied, ln in ((True, 20), (False, 12)):
+        for cut in range(0, ln + 1):
+            cases.append(dict(shutdown=True, serve=True, cut=cut, bodied=bodied))
+    cases = replay_or(ctx, "daemon", cases)
+    tr = ctx.harness("daemon", cases, shards=12)
+    viol = ctx.tlc_tv("TV_Daemon", tr, "daemon", chunk_events=10000)
+    cur = None
+    for line in open(tr):
+        e = json.loads(line)
+        if e["ev"] == "reset":
+            cur = [e.get("callers"), e.get("peer"), e.get("peer_closes"), []]
+        elif e["ev"] == "cmd":
+            cur[3].append((e["c"], e["a"]))
+        elif e["ev"] in ("end", "serve"):
+            ctx.evaluations += 1
+            ctx.distinct.add((cur[0], cur[1], cur[2], tuple(cur[3]), e.get("wait", e.get("res")), e.get("cut")))
+    ctx.sample(tr, 1, skip=0)
+    ctx.exhaustive = ctx.tier == "quick"
+    return ctx.finish("model_checking",
+        "DaemonLifecycle.tla (daemon thread pc x 0..3 shutdown callers with their two steps x peer having sent nothing / part of a header / a "
+        "header / a complete request, staying or closing) is model-checked for every combination: after a completed shutdown request the "
+        "thread exits and wait() is Ok (invariants + liveness under fairness), without shutdown a disconnect is an error, the peer sees "
+        "end-of-stream. Every complete schedule (0..2 callers all; 3 callers sampled in thorough) is driven through the hold points "
+        "d.before_request / d.after_request / d.before_final_shutdown / s.after_flag and a blocking handler on a real daemon; TLC replays "
+        "the executed commands as model actions (conformance) and compares wait(), the peer's view, restart on a new connection, repeated "
+        "shutdown and the thread count after drop. serve() is run with the peer closing at every byte offset of a bodied and a body-less request.",
+        ASSUME_COMMON + ["wait() runs under a 10 s watchdog (its expiry is the 'hang' verdict); thread termination after drop is awaited for up to 10 s",
+                         "a peer closing with an unread reply (ECONNRESET) is mapped to Ok by the library by design and is not part of these schedules"],
+        viol)
